@@ -95,6 +95,8 @@ def rule_c02_r9(ctx: Ctx) -> None:
         bad = []
         if d is None:
             bad.append("no such type in the result")
+        elif "layout" in d:
+            raise AnalysisError("the layout of ns.%s.1.0 cannot be asked of the model: %s" % (n, d["layout"]))
         else:
             if d.get("alignment") != L.align:
                 bad.append("alignment %r, Specification %d" % (d.get("alignment"), L.align))
@@ -139,23 +141,30 @@ def text_with_assertions(name: str, spec: Tuple[str, List[Tuple[str, str, str]],
     return "\n".join(lines) + "\n", about
 
 
+# (the big arrays and the long structure make `_offset_` expand sets of hundreds of lengths at every point - milliseconds for
+# Python, minutes for the checker's evaluator: they are left to C02.R9; the structure keeps one field of every kind)
+OFFSETS = {n: s for n, s in SMALL.items() if n not in ("Arr", "U2")}
+OFFSETS["Big"] = ("struct", [f for f in SMALL["Big"][1] if f[0] in ("x", "", "one", "y", "v", "d", "last", "f", "bytes")][:9], None)
+
+
 def rule_c08_r7(ctx: Ctx) -> None:
-    ctx.rule("C08.R7", "`@assert _offset_ == <the Specification's set of positions>` after every field of structures (paddings, nested composites, arrays, delimited members) and after the last variant of unions, and `T._bit_length_` / `T._extent_` against the reference for every type of the corpus, read end to end by the evaluated front end: every assertion holds", min_instances=len(SMALL))
+    ctx.rule("C08.R7", "`@assert _offset_ == <the Specification's set of positions>` after every field of structures (paddings, nested composites, arrays, delimited members) and after the last variant of unions, and `T._bit_length_` / `T._extent_` against the reference for every type of the corpus, read end to end by the evaluated front end: every assertion holds", min_instances=len(OFFSETS))
     fe = front_end(ctx)
-    ref = reference_for(SMALL)
+    SM = OFFSETS
+    ref = reference_for(dict(SMALL, **OFFSETS))
     where = "pydsdl/_data_schema_builder.py"
-    deps = {"%s.1.0.dsdl" % n: text_of(n, s, False) for n, s in SMALL.items()}
+    deps = {"%s.1.0.dsdl" % n: text_of(n, s, False) for n, s in SM.items()}
     def closure(n_: str, seen: Optional[set] = None) -> set:
         seen = seen if seen is not None else set()
-        for _, _, canon in SMALL[n_][1]:
-            for m_ in SMALL:
+        for _, _, canon in SM[n_][1]:
+            for m_ in SM:
                 if "ns.%s.1.0" % m_ in canon and m_ not in seen:
                     seen.add(m_)
                     closure(m_, seen)
         return seen
 
     jobs, labels = [], []
-    for n, spec in SMALL.items():
+    for n, spec in SM.items():
         text, about = text_with_assertions(n, spec, ref)
         files = {"%s.1.0.dsdl" % m_: deps["%s.1.0.dsdl" % m_] for m_ in closure(n)}  # (only what the definition refers to)
         files["%s.1.0.dsdl" % n] = text
@@ -163,7 +172,7 @@ def rule_c08_r7(ctx: Ctx) -> None:
         labels.append((n, text, about))
     # the intrinsics of every type, asked from another definition
     zq_lines, zq_about = [], {}
-    for n in SMALL:
+    for n in SM:
         L = ref.of("ns.%s.1.0" % n)
         if L.lengths is not None and len(L.lengths) <= 300:
             zq_lines.append("@assert ns.%s.1.0._bit_length_ == %s" % (n, _set_text(L.lengths)))
@@ -173,8 +182,17 @@ def rule_c08_r7(ctx: Ctx) -> None:
     files = dict(deps)
     files["Zq.1.0.dsdl"] = "\n".join(zq_lines) + "\n@sealed\n"
     jobs.append(job_for(files))
+    # first everything in one namespace (one evaluation); only if an assertion fails there, definition by definition
+    all_files = {"%s.1.0.dsdl" % n: text for n, text, _ in labels}
+    all_files["Zq.1.0.dsdl"] = files["Zq.1.0.dsdl"]
+    together = fe.read_many([job_for(all_files)])[0]
+    ctx.count(sum(len(s[1]) for s in SM.values()) + len(zq_lines))
+    if together["raised"] is None:
+        for n, text, about in labels:
+            ctx.ok("_offset_ in ns.%s.1.0" % n, "%d points" % len(about), where=where)
+        ctx.ok("T._bit_length_ / T._extent_", "%d assertions" % len(zq_lines), where="pydsdl/_serializable/_serializable.py")
+        return
     outs = fe.read_many(jobs)
-    ctx.count(sum(len(s[1]) for s in SMALL.values()) + len(zq_lines))
     for (n, text, about), o in zip(labels, outs):
         bad = None
         if o["raised"] is not None:
@@ -234,7 +252,7 @@ def rule_c02_r10(ctx: Ctx) -> None:
             bad.append("no such type in the result")
         else:
             if "layout" in d:
-                bad.append("the layout cannot be asked: %s" % d["layout"])
+                raise AnalysisError("the layout of ns.%s.1.0 cannot be asked of the model: %s" % (n, d["layout"]))
             if d.get("alignment") != L.align:
                 bad.append("alignment %r, Specification %d" % (d.get("alignment"), L.align))
             if (d.get("min"), d.get("max")) != (L.lo, L.hi):
